@@ -490,6 +490,10 @@ class Interp:
                 pass
             except BreakLoop:
                 return  # continue after the loop with the state at the break
+            for j, ea in enumerate(spec.get('each', [])):
+                # per-element postcondition of this iteration (lifted to all elements at exit)
+                self.oblige('%s.each[%d]' % (base, j), self.spec_bool(ea, inv_env(i)),
+                            'inv', {'text': ea})
             for j, inv in enumerate(spec.get('inv', [])):
                 self.oblige('%s.keep[%d]' % (base, j), self.spec_bool(inv, inv_env(i + 1)),
                             'inv', {'text': inv})
@@ -501,10 +505,39 @@ class Interp:
         self.ghost['loop_index'] = None
         if it is not None:
             self.assume(i == seqlen)
+        if spec.get('each'):
+            # forall-introduction: sound because iteration k writes the sequence only at index k
+            # (checked syntactically) so the element established by iteration k is still there
+            self._check_each_frame(s, spec)
+            q = z3.Int(fresh_name('each_j'))
+            for ea in spec['each']:
+                body = self.spec_bool(ea, inv_env(q))
+                self.assume(z3.ForAll([q], z3.Implies(z3.And(q >= 0, q < seqlen), body)))
         else:
             if self.decide(self.eval(s.test), 'while-exit'):
                 raise PathEnd()
         self.exec_block(s.orelse)
+
+    def _check_each_frame(self, s, spec):
+        """`each` needs: the loop is `for IX, X in enumerate(SEQ)` and the body stores into SEQ
+        only as SEQ[IX] = ... and never rebinds IX or SEQ"""
+        ok = (isinstance(s, ast.For) and isinstance(s.iter, ast.Call)
+              and isinstance(s.iter.func, ast.Name) and s.iter.func.id == 'enumerate'
+              and isinstance(s.iter.args[0], ast.Name) and isinstance(s.target, ast.Tuple)
+              and isinstance(s.target.elts[0], ast.Name))
+        if not ok:
+            raise Unsupported('loop spec `each` on a loop that is not `for i, x in enumerate(seq)`')
+        seq, ix = s.iter.args[0].id, s.target.elts[0].id
+        for n in ast.walk(ast.Module(body=s.body, type_ignores=[])):
+            if isinstance(n, ast.Name) and isinstance(n.ctx, (ast.Store, ast.Del)) and n.id in (seq, ix):
+                raise Unsupported('`each`: %s is rebound inside the loop' % n.id)
+            if isinstance(n, ast.Subscript) and isinstance(n.ctx, (ast.Store, ast.Del)) and \
+                    isinstance(n.value, ast.Name) and n.value.id == seq:
+                if not (isinstance(n.slice, ast.Name) and n.slice.id == ix):
+                    raise Unsupported('`each`: store into %s at an index other than %s' % (seq, ix))
+            if isinstance(n, ast.Call) and isinstance(n.func, ast.Attribute) and \
+                    isinstance(n.func.value, ast.Name) and n.func.value.id == seq:
+                raise Unsupported('`each`: method call on %s inside the loop' % seq)
 
     # ------------------------------------------------------------------
     # assignment
